@@ -101,6 +101,14 @@ def notes_case(draw):
     c["t1"], c["t2"] = draw(two(vals))
     if c["offset_ratio"] is None and c["axis"] in ("offset_ratio", "offset_min_tolerance"):
         c["offset_ratio"] = 0.2
+    # the tolerances that are held fixed are taken from a wide, non-default range: an interplay between two tolerances
+    # (e.g. a floor that is only honoured below a hard-coded value) is invisible while the others stay near their defaults
+    if draw(st.booleans()):
+        c["offset_min_tolerance"] = draw(st.sampled_from([0.05, 0.0625, 0.125, 0.25, 0.5, 1.0]))
+        if c["offset_ratio"] is not None:
+            c["offset_ratio"] = draw(st.sampled_from([0.05, 0.1, 0.2, 0.25, 0.5, 1.0]))
+        c["onset_tolerance"] = draw(st.sampled_from([0.025, 0.05, 0.0625, 0.125, 0.25, 0.5]))
+        c["pitch_tolerance"] = draw(st.sampled_from([10.0, 25.0, 50.0, 100.0, 1200.0]))
     return c
 
 
